@@ -444,6 +444,30 @@ def main():
         mod.postprocess(ctx, recs)
     ok, mfail, sfail, unmod, crash = classify(recs)
 
+    # ---- 4b. every configured parameter set is still exercised --------------------------------
+    # The generators probe the library for what can be selected; a parameter set whose selection starts to fail would silently drop out
+    # of the streams. tools/expected_contexts.json (committed; recorded on the clean tree with VERIF_RECORD_CONTEXTS=1) lists, per property
+    # and tier, the context lines (`ep_param 12`, `fb_param 20`, …) under which at least one line must be judged ok.
+    def _stable(c):
+        # only contexts that do not depend on the seed: small integers and short words after the op name (no key-generation seeds)
+        return all((t.isdigit() and len(t) < 5) or (t.isalpha() and len(t) < 5) for t in c.split()[1:])
+    # an operation line judged ok under the context (the context line alone does not count: a rejected selection is "ok rejected")
+    ctx_seen = sorted({"%s|%s" % (r["stream"], r["context"]) for r in ok
+                       if r.get("context") and r["line"] != r["context"] and _stable(r["context"])})
+    ecp = os.path.join(VERIF, "tools", "expected_contexts.json")
+    try:
+        expected_ctx = json.load(open(ecp))
+    except (OSError, ValueError):
+        expected_ctx = {}
+    if os.environ.get("VERIF_RECORD_CONTEXTS") == "1":
+        expected_ctx.setdefault(pid, {})[tier] = ctx_seen
+        with open(ecp, "w") as fh:
+            json.dump(expected_ctx, fh, indent=1, sort_keys=True)
+    else:
+        missing_ctx = [c for c in expected_ctx.get(pid, {}).get(tier, []) if c not in ctx_seen]
+        if missing_ctx and recs:
+            proof_problems.append("parameter sets no longer exercised (selection fails or the stream dropped them): %s" % ", ".join(missing_ctx[:12]))
+
     # ---- 5. decide ---------------------------------------------------------------------------
     def known_match(r):
         for f in kf:
